@@ -6,7 +6,11 @@ the UNIT FAMILY of the two operands of a binary operation (unrelated units; the 
 scales; unit pairs whose product / quotient cancels to a numeric coefficient, to a coefficient and a unit, or to a scaled pure
 number - the pairs for which the ufunc wrap-up leaves through its second, rescaling exit), and the ARGUMENT FORMS of the
 constructors (class called x kind of input x units form x registry x dtype form x bypass_validation x name, as a full product)
-and of the view / copy accessors that take optional arguments.
+and of the view / copy accessors that take optional arguments; WHICH UNIT an element of a coerced sequence carries (the same spelling
+in two / three registries, before and after registry.modify(), compound / prefixed / power spellings over such a symbol) against
+every place that coerces a sequence (constructor, item assignment, either operand of a binary operation, with the target / partner
+spelled differently or alike); the NumPy-function handlers by what NumPy hands back for one number (scalar, 0-d ndarray, one-element
+array) x call form (which operand is the unyt object, axes / mode / axis / keepdims spellings).
 Continuous axes (z3 reals): every payload element, every value written through a view or into a copy, every unit scale
 (cancelling unit factors are table units: sympy cannot hold a solver term).
 Class and shape facts are concrete per explored path; the solver's share is the value-level statements
@@ -40,7 +44,14 @@ MANIFEST = dict(
           "bypass_validation x name: up to 160 calls per shape and input kind, plus the same on float64/float32/int64 buffers of "
           "numerals as ground facts); writes into .v / .value / to_ndarray() / to_value() / "
           "copy() / to / in_units / in_base / ndarray*unit results leave every parent term unchanged (and vice versa); a list of "
-          "quantities in mixed commensurable units is coerced to the first element's unit with equal SI magnitudes; the result of "
+          "quantities in mixed commensurable units is coerced to the first element's unit with equal SI magnitudes - also when the units "
+          "are mixed without being SPELLED differently (the same symbol in two or three registries with independent symbolic scales, captured "
+          "before / after registry.modify() to a symbolic new scale, inside xa/xs, xa**2, kxa), at every place that coerces a sequence "
+          "(unyt_array(seq) list / tuple / registry=, x[:] = seq, x + seq, seq + x, x - seq, x * seq, seq * x, the target or partner spelled "
+          "differently or like the sequence in a registry of its own); the class rule on about 75 further handler call forms chosen by what "
+          "NumPy hands back for one number (tensordot / kron / dot / vdot / inner / einsum / convolve / correlate with the unyt operand "
+          "left or right of a bare ndarray or a quantity, axes= as integer and as pair of lists, norm / var / average with axis / keepdims, "
+          "where / choose / select / around / triu / insert / block / linspace); the result of "
           "multiply / divide / outer / matmul / vecdot / add / subtract / x*unit / x/unit on operands whose units cancel (km * 1/m, "
           "m**2 / cm, erg / (N*m) ...) denotes in SI what bare NumPy computes from the payloads times the scales of the harness' own "
           "unit table (so the coefficient is applied exactly once, to every output, whatever class the result has). Any model is "
@@ -65,7 +76,12 @@ EXPLANATION = (
     "copy all parent terms are the original symbols, and z3 proves the SI statements for unit-carrying writes and converting copies; "
     "(coercion) z3 proves si(result_i) == si(input_i) for all values and scales; (cancelling unit pairs) the same class / shape / "
     "arity facts for every operand-kind combination, the dimension of the result's unit against an exponent-vector table written for "
-    "this check, and z3 proves si(result_i) == (bare NumPy on the payloads)_i * (table scale of x) op (table scale of y) for all payloads.")
+    "this check, and z3 proves si(result_i) == (bare NumPy on the payloads)_i * (table scale of x) op (table scale of y) for all payloads; "
+    "(unit identity) _coerce_iterable_units and its three callers (unyt_array.__new__, __setitem__, the binary branch of __array_ufunc__) are "
+    "executed on sequences whose elements are spelled alike but live in different registries / registry states: z3 proves for all payloads and "
+    "all scales of all registries that every element of the result (the assigned target, the sum / difference / product) denotes in SI what the "
+    "input element denoted in ITS registry, and that the inputs keep payload, spelling and scale; (handlers) the class / shape / arity facts "
+    "for the handler x call-form catalogue of family 3b.")
 BOUNDS = {
     "quick": "shapes: all of rank 0..3 with extents 0..2 (40 shapes, incl. (), (1,), (1,1), (0,), (2,0)); operand classes A (unyt_array of "
              "every shape incl. 0-d) and Q (unyt_quantity of every shape of size 1: (), (1,), (1,1), (1,1,1)); per (shape, class) one case "
@@ -99,10 +115,17 @@ BOUNDS = {
              "as scalar type] x bypass_validation [False; True with the Unit forms] x name [omitted; given]: 80 forms per class; fresh "
              "symbols written at up to 3 positions through the result and 2 into the buffer per form, class / shape / dtype / unit / name "
              "of the result compared with the harness' reading of the signature); coercion of lists/tuples of 1..3 quantities in distinct / equal / SI-prefixed units and of 2 arrays. "
+             "coerce-ident (which unit an element carries): 20 identities [xa in registries A,B / B,A / A,A,B / A,B,A / A,B,B / B,A,A / A,B,C; A before and after "
+             "modify(): a,m / m,a / a,a,m / a,m,B; xa/xs, xa**2, kxa over the same; one element spelled differently beside a foreign one; control: same "
+             "registry] all through unyt_array(list); the sites tuple, registry=, x[:] = list / tuple, x + seq, np.add(seq, x), x - seq, x * seq, "
+             "np.multiply(seq, x) and the -alike sites (target / partner spelled like the sequence in a fourth registry) with the pairs A,B and a,m "
+             "(+ A,B,A, compound, control on a subset); element shapes () and (2,); additive sites on positive payloads (their rounding band is "
+             "relative to |operands|); handler (family 3b: 75 call forms of product / moment / selection handlers per shape and class). "
              "Unit scales xa, xb, xc, xd, xs are symbols > 0; in the view family xa and xb are exactly equal or more than 1e-3 apart",
     "thorough": "the same with extents 0..3 (85 shapes, payloads up to 27 symbols) and coercion lists of 1..4 quantities, 3 arrays, (1,2) arrays; "
                 "cancel family: on the 40 shapes of the quick bound plus (3,), (1,3), (3,1), (3,3) only, with 7 more pairs (m/km, km*xs/m, km*1/km, "
-                "(km/hr)*min [1/60], (km/hr)/(m/s) [1/3.6], (km/m)/(hr/min), km/km) and a 0-d quantity partner for every pair",
+                "(km/hr)*min [1/60], (km/hr)/(m/s) [1/3.6], (km/m)/(hr/min), km/km) and a 0-d quantity partner for every pair; coerce-ident: the full "
+                "product 13 sites x 20 identities, element shapes (2,) and (1,2) on a subset",
 }
 # every case is also run pinned through the shimmed library and on plain unyt with float64 data (shim conformance): the class facts
 # rest on object-dtype payloads taking the branches float payloads take
@@ -125,6 +148,11 @@ OUTSIDE = ("IEEE rounding/overflow (A1); integer/complex payloads (C17; the cons
            "TypeError in NumPy 2); calls that fail for every operand class for reasons unrelated to the class decision and were left out "
            "of the catalogue: np.multiply.accumulate (TypeError), prod/multiply.reduce over a tuple of axes (TypeError in "
            "_apply_power_mapping), and calls that silently drop the unit (x.trace(), np.diag, np.copy without subok, np.broadcast_to: C07); "
+           "coerced sequences: registry= naming ANOTHER registry than the first element's (unyt re-reads the spelling there: a relabel by design, as "
+           "for unyt input), a first element without units, np.divide with a sequence (same-dimension symbolic scales would cancel inside sympy); "
+           "handlers left out of family 3b because the solver-term payload cannot run them or the float path bypasses the ufunc the object path takes: "
+           "np.std / x.std / x.var, np.interp, x.real / np.real / x.conj(), percentile / quantile, FFT / LAPACK handlers; np.apply_over_axes (raises "
+           "AxisError in unyt for every rank >= 2 input, unrelated to the class decision: C06); np.round / x.round() on a 0-d unyt_array (drops the unit: C07); "
            "empty payloads are float64 arrays in every mode (they have no element to be symbolic; NumPy's object-dtype reductions return "
            "the int 0 for them)")
 
@@ -1113,6 +1141,113 @@ def make_func_case(shape, cls):
     return Case(f"C16/func/{cls}{sid(shape)}", h, bounds="symbolic: payloads, unit scales", weight=3 + size_of(shape), budget_s=900, max_paths=4000)
 
 
+# ------------------------------------------------------------------------------------------------ family 3b: the handlers, by what NumPy hands back
+#
+# A NumPy-function handler gets NumPy's raw result and has to put a class on it. What NumPy hands back for ONE number differs by
+# function and by call form: a NumPy scalar (np.dot, np.inner, np.vdot, np.einsum, np.trace, norm, var ...), a 0-d ndarray
+# (np.tensordot with every axis contracted, np.kron / np.where / np.choose of 0-d operands, np.interp at a 0-d point ...), or a
+# one-element array of rank >= 1 (np.convolve / np.correlate). A handler that decides by isinstance(ndarray), by ndim, by np.isscalar
+# or by the class of an operand is right for some of these and wrong for others, so the axis walked here is handler x call form
+# (which operand is the unyt object, which a bare ndarray / a quantity; the axes / mode / axis argument in its spellings) for every
+# operand shape and class; sites are grouped '<group>:<call>' so that each group is one fingerprint.
+
+def handler_catalogue(E):
+    nd, shape = len(E.shape), E.shape
+    bare = fresh(E, "hb", shape)
+    pb = placeholder(shape, 2.0)
+    bq = make(E, fresh(E, "hq", ()), "Q", E.us)
+    allax = list(range(nd))
+    F = []
+
+    def add(site, f, ref=None, unitful=True):
+        F.append((site, f, ref, unitful))
+
+    # products: labelled `numpy result * units` or through a class picked by the handler
+    add("product:np.tensordot(x,x,axes=(all,all))", lambda a: np.tensordot(a, a, axes=(allax, allax)))
+    add("product:np.tensordot(x,x,axes=(all,reversed))", lambda a: np.tensordot(a, a.T, axes=(allax, allax[::-1])))
+    add("product:np.tensordot(x,nd,axes=ndim)", lambda a: np.tensordot(a, bare, axes=nd), lambda p: np.tensordot(p, pb, axes=nd))
+    add("product:np.tensordot(nd,x,axes=ndim)", lambda a: np.tensordot(bare, a, axes=nd), lambda p: np.tensordot(pb, p, axes=nd))
+    add("product:np.tensordot(x,x,axes=0)", lambda a: np.tensordot(a, a, axes=0))
+    add("product:np.tensordot(x,quantity,axes=0)", lambda a: np.tensordot(a, bq, axes=0), lambda p: np.tensordot(p, 2.0, axes=0))
+    add("product:np.tensordot(quantity,x,axes=0)", lambda a: np.tensordot(bq, a, axes=0), lambda p: np.tensordot(2.0, p, axes=0))
+    add("product:np.tensordot(x,x.T,axes=1)", lambda a: np.tensordot(a, a.T, axes=1))
+    add("product:np.linalg.tensordot(x,x,axes=ndim)", lambda a: np.linalg.tensordot(a, a, axes=nd))
+    add("product:np.kron(x,x)", lambda a: np.kron(a, a))
+    add("product:np.kron(x,quantity)", lambda a: np.kron(a, bq), lambda p: np.kron(p, 2.0))
+    add("product:np.kron(quantity,x)", lambda a: np.kron(bq, a), lambda p: np.kron(2.0, p))
+    add("product:np.kron(x,nd)", lambda a: np.kron(a, bare), lambda p: np.kron(p, pb))
+    add("product:np.outer(x,quantity)", lambda a: np.outer(a, bq), lambda p: np.outer(p, 2.0))
+    add("product:np.linalg.outer(x,x)", lambda a: np.linalg.outer(a, a))
+    add("product:np.dot(x,nd.T)", lambda a: np.dot(a, bare.T), lambda p: np.dot(p, pb.T))
+    add("product:np.dot(nd,x.T)", lambda a: np.dot(bare, a.T), lambda p: np.dot(pb, p.T))
+    add("product:np.dot(x,quantity)", lambda a: np.dot(a, bq), lambda p: np.dot(p, 2.0))
+    add("product:np.vdot(nd,x)", lambda a: np.vdot(bare, a), lambda p: np.vdot(pb, p))
+    add("product:np.vdot(x,nd)", lambda a: np.vdot(a, bare), lambda p: np.vdot(p, pb))
+    add("product:np.inner(x,nd)", lambda a: np.inner(a, bare), lambda p: np.inner(p, pb))
+    add("product:np.inner(nd,x)", lambda a: np.inner(bare, a), lambda p: np.inner(pb, p))
+    add("product:np.inner(x,quantity)", lambda a: np.inner(a, bq), lambda p: np.inner(p, 2.0))
+    add("product:np.einsum('...,...->',x,nd)", lambda a: np.einsum("...,...->", a, bare), lambda p: np.einsum("...,...->", p, pb))
+    add("product:np.einsum('...,...->',nd,x)", lambda a: np.einsum("...,...->", bare, a), lambda p: np.einsum("...,...->", pb, p))
+    add("product:np.einsum('...,...',x,x)", lambda a: np.einsum("...,...", a, a))
+    add("product:np.einsum('i...->...')", lambda a: np.einsum("i...->...", a))
+    add("product:np.convolve(x,x)", lambda a: np.convolve(a, a))
+    add("product:np.convolve(x,x,'valid')", lambda a: np.convolve(a, a, "valid"))
+    add("product:np.convolve(x,nd,mode='same')", lambda a: np.convolve(a, bare, mode="same"), lambda p: np.convolve(p, pb, mode="same"))
+    add("product:np.convolve(x,quantity)", lambda a: np.convolve(a, bq), lambda p: np.convolve(p, 2.0))
+    add("product:np.correlate(x,x)", lambda a: np.correlate(a, a))
+    add("product:np.correlate(x,x,'full')", lambda a: np.correlate(a, a, "full"))
+    add("product:np.correlate(nd,x)", lambda a: np.correlate(bare, a), lambda p: np.correlate(pb, p))
+    add("product:np.cross(x,x)", lambda a: np.cross(a, a))
+    add("product:np.linalg.vecdot(x,x)", lambda a: np.linalg.vecdot(a, a))
+    add("product:np.linalg.matmul(x,x.T)", lambda a: np.linalg.matmul(a, a.T))
+    add("product:np.linalg.trace", lambda a: np.linalg.trace(a))
+    add("product:np.trace(offset=1)", lambda a: np.trace(a, offset=1))
+    add("product:np.linalg.diagonal", lambda a: np.linalg.diagonal(a))
+    add("product:np.trapezoid(x,axis=0)", lambda a: np.trapezoid(a, axis=0))
+    add("product:np.trapezoid(x,dx=quantity)", lambda a: np.trapezoid(a, dx=bq), lambda p: np.trapezoid(p, dx=2.0))
+    # norms and moments: NumPy hands back a scalar for one number
+    add("moment:np.linalg.norm", lambda a: np.linalg.norm(a))
+    add("moment:np.linalg.norm(axis=0)", lambda a: np.linalg.norm(a, axis=0))
+    add("moment:np.linalg.norm(keepdims)", lambda a: np.linalg.norm(a, keepdims=True))
+    add("moment:np.linalg.vector_norm", lambda a: np.linalg.vector_norm(a))
+    add("moment:np.var", lambda a: np.var(a))
+    add("moment:np.var(axis=0)", lambda a: np.var(a, axis=0))
+    add("moment:np.var(keepdims)", lambda a: np.var(a, keepdims=True))
+    add("moment:np.average", lambda a: np.average(a))
+    add("moment:np.average(axis=0)", lambda a: np.average(a, axis=0))
+    add("moment:np.average(weights=nd)", lambda a: np.average(a, weights=pb), lambda p: np.average(p, weights=pb))
+    add("moment:np.nansum", lambda a: np.nansum(a))
+    # selection / rearrangement handlers: NumPy hands back a 0-d ndarray for 0-d operands
+    add("select:np.where(0-d condition,x,x)", lambda a: np.where(np.array(True), a, a))
+    add("select:np.where(condition,x,quantity in the same unit)", lambda a: np.where(np.ones(np.shape(a), dtype=bool), a, make(E, fresh(E, "hw", ()), "Q", E.ua)),
+        lambda p: np.where(np.ones(np.shape(p), dtype=bool), p, 2.0))
+    add("select:np.choose(0,(x,x))", lambda a: np.choose(0, (a, a)))
+    add("select:np.choose(index array,(x,x))", lambda a: np.choose(np.zeros(np.shape(a), dtype=int), (a, a)))
+    add("select:np.select((mask),(x),default=x)", lambda a: np.select([np.ones(np.shape(a), dtype=bool)], [a], default=a))
+    add("select:np.around", lambda a: np.around(a))
+    add("select:np.triu", lambda a: np.triu(a))
+    add("select:np.tril(k=-1)", lambda a: np.tril(a, k=-1))
+    add("select:np.ediff1d", lambda a: np.ediff1d(a))
+    add("select:np.diff(axis=0)", lambda a: np.diff(a, axis=0))
+    add("select:np.insert(x,0,x)", lambda a: np.insert(a, 0, a))
+    add("select:np.dstack", lambda a: np.dstack([a, a]))
+    add("select:np.column_stack", lambda a: np.column_stack([a, a]))
+    add("select:np.block", lambda a: np.block([a, a]))
+    add("select:np.fft.fftshift", lambda a: np.fft.fftshift(a))
+    add("select:np.linspace(x,x,3)", lambda a: np.linspace(a, a, 3))
+    return F
+
+
+def make_handler_case(shape, cls):
+    def h(ctx):
+        E = setup(ctx, shape, cls)
+        x, px, me = E.x, placeholder(shape), E.me
+        for site, f, ref, unitful in handler_catalogue(E):
+            run_op(E, site, f"{site} on {me}", f, (x,), (px,), unitful=unitful, ref=ref, observe=False)
+        flush(E)
+    return Case(f"C16/handler/{cls}{sid(shape)}", h, bounds="symbolic: payloads, unit scales", weight=3 + size_of(shape), budget_s=900, max_paths=4000)
+
+
 # ------------------------------------------------------------------------------------------------ family 4: attachment (views / copies)
 
 def positions(shape, limit=4):
@@ -1574,6 +1709,173 @@ def make_coerce_case(n, form, elem_shape=()):
     return Case(f"C16/coerce/{tag}", h, bounds="symbolic: values, all unit scales", weight=5 * n, budget_s=900, max_paths=4000)
 
 
+# ------------------------------------------------------------------------------------------------ family 5b: WHICH unit an element carries
+#
+# "the same unit" is a statement about the unit (scale, dimension), not about how it is spelled: two elements can be spelled alike and
+# be different units - the same symbol defined in two registries (code units of two data sets), the same symbol of one registry
+# captured before and after registry.modify(), a compound / SI-prefixed spelling over such a symbol. The identity axis walks these
+# against every place that coerces a sequence of quantities (_coerce_iterable_units): the constructor (with and without registry=),
+# item assignment of a sequence, and a sequence as either operand of a binary operation. Every scale is a solver symbol.
+
+COERCE_IDENT = {
+    # tag: (spelling, [home of element i: 'a' registry A, 'b' registry B, 'c' registry C, 'm' registry A after modify(), 'o' other spelling in A])
+    "tworeg/ab": ("xa", "ab"), "tworeg/ba": ("xa", "ba"), "tworeg/aab": ("xa", "aab"), "tworeg/aba": ("xa", "aba"),
+    "tworeg/abb": ("xa", "abb"), "tworeg/baa": ("xa", "baa"), "threereg/abc": ("xa", "abc"),
+    "modified/am": ("xa", "am"), "modified/ma": ("xa", "ma"), "modified/aam": ("xa", "aam"), "modified/amb": ("xa", "amb"),
+    "compound/ab": ("xa/xs", "ab"), "compound/aab": ("xa/xs", "aab"), "compound/am": ("xa/xs", "am"),
+    "power/ab": ("xa**2", "ab"), "prefixed/ab": ("kxa", "ab"), "prefixed/am": ("kxa", "am"),
+    "withother/abo": ("xa", "abo"), "withother/aob": ("xa", "aob"),
+    "samereg/aa": ("xa", "aa"),
+}
+COERCE_SITES = ["ctor", "ctor-tuple", "ctor-registry", "setitem", "setitem-tuple", "add-x-seq", "add-seq-x", "sub-x-seq", "mul-x-seq", "mul-seq-x",
+                "setitem-alike", "add-x-seq-alike", "add-seq-x-alike"]  # -alike: the target / partner is SPELLED like the sequence, in a registry of its own
+COERCE_QUICK = [  # (site, identity, element shape): every identity through the constructor, every site with the two-registry pairs
+    *[("ctor", i, ()) for i in COERCE_IDENT],
+    *[(s, i, ()) for s in COERCE_SITES[1:] for i in ("tworeg/ab", "modified/am")],
+    *[(s, "tworeg/aba", ()) for s in ("ctor-tuple", "setitem", "add-seq-x", "mul-x-seq")],
+    *[(s, "compound/ab", ()) for s in ("setitem", "add-x-seq", "mul-seq-x", "setitem-alike")],
+    *[(s, "samereg/aa", ()) for s in ("setitem-alike", "add-x-seq-alike", "add-seq-x-alike", "setitem", "add-x-seq")],
+    ("ctor", "tworeg/ab", (2,)), ("ctor", "modified/am", (2,)), ("setitem", "tworeg/ab", (2,)), ("mul-x-seq", "tworeg/ab", (2,)),
+    ("ctor", "compound/ab", (2,)),
+]
+
+
+def make_coerce_ident_case(site, ident, elem_shape=()):
+    spelling, homes = COERCE_IDENT[ident]
+    n = len(homes)
+
+    additive = site.startswith(("add", "sub"))  # their rounding band is relative to |operands|: positive payloads keep |.| from forking
+
+    def h(ctx):
+        unyt = ctx.mods["unyt"]
+        D = unyt.dimensions
+        UA, UQ = unyt.unyt_array, unyt.unyt_quantity
+        regs, sc = {}, {}
+        for r in sorted(set(homes) - {"m", "o"} | {"a"}):
+            regs[r] = ctx.registry([])
+            sc[r] = (ctx.real(f"xa_{r}", pos=True), ctx.real(f"xs_{r}", pos=True))
+            ctx.add_row(regs[r], "xa", D.length, sc[r][0], 0.0, prefixable=True)
+            ctx.add_row(regs[r], "xs", D.time, sc[r][1], 0.0)
+        sb = ctx.real("xb_a", pos=True)
+        ctx.add_row(regs["a"], "xb", D.length, sb, 0.0)
+        sa_new = ctx.real("xa_m", pos=True)
+
+        def scale_of(xa, xs, text):  # the harness' own reading of the spelling
+            return {"xa": xa, "xa/xs": xa / xs, "xa**2": xa * xa, "kxa": xa * 1000.0, "xb": sb}[text]
+
+        # the elements are built in order; registry A is modified when the first 'm' element is reached ('a' elements AFTER it
+        # keep the unit object they were given before, like a quantity that was created before the edit)
+        pre = {}
+        for i, hm in enumerate(homes):
+            if hm == "a":
+                pre[i] = unyt.Unit(spelling, registry=regs["a"])
+        qs, xs, scales, texts, modified = [], [], [], [], False
+        for i, hm in enumerate(homes):
+            v = ctx.reals(f"x{i}", elem_shape, pos=additive)
+            xs.append(list(elements(v)))
+            if hm == "m" and not modified:
+                regs["a"].modify("xa", sa_new)
+                modified = True
+            text = "xb" if hm == "o" else spelling
+            if hm == "a":
+                unit, s = pre[i], scale_of(*sc["a"], text)
+            elif hm == "m":
+                unit, s = unyt.Unit(text, registry=regs["a"]), scale_of(sa_new, sc["a"][1], text)
+            elif hm == "o":
+                unit, s = unyt.Unit("xb", registry=regs["a"]), sb
+            else:
+                unit, s = unyt.Unit(text, registry=regs[hm]), scale_of(*sc[hm], text)
+            qs.append((UQ if elem_shape == () else UA)(v, unit))
+            scales.append(s)
+            texts.append(text)
+        seq = tuple(qs) if "tuple" in site else list(qs)
+        dim_first = {"xa": D.length, "xa/xs": D.length / D.time, "xa**2": D.length ** 2, "kxa": D.length}[spelling]
+        full = (n,) + tuple(elem_shape)
+
+        def untouched():
+            return And(*[all_exact(payload(q), xv) for q, xv in zip(qs, xs)], *[str(q.units) == t for q, t in zip(qs, texts)],
+                       *[close(q.units.base_value, s) for q, s in zip(qs, scales)], True)
+
+        if site.startswith("ctor"):
+            kw = dict(registry=qs[0].units.registry) if "registry" in site else {}
+            r = UA(seq, **kw)
+            ctx.require("coerce/is unyt_array, not unyt_quantity", isinstance(r, UA) and (not isinstance(r, UQ) or r.size <= 1), got=type(r).__name__)
+            ctx.require("coerce/shape", tuple(r.shape) == full, got=r.shape)
+            ctx.require("coerce/first element's unit", And(str(r.units) == texts[0], bool(r.units.dimensions == dim_first),
+                                                           close(r.units.base_value, scales[0])), got=str(r.units))
+            got = np.asarray(r.d).reshape(n, -1)
+            ctx.require("coerce/si(result_i) == si(input_i)",
+                        And(*[close(g * scales[0], xv * scales[i]) for i in range(n) for g, xv in zip(list(got[i]), xs[i])], True))
+            ctx.require("coerce/inputs untouched", untouched())
+            ctx.observe("coerced", payload(r))
+            r[(0,) * r.ndim] = ctx.real("w")
+            ctx.require("coerce/result is fresh data", untouched())
+            return
+        # the other sites: a target / partner x of the sequence's full shape in the spelling over xb (another scale, registry A)
+        xtext, sx = {"xa": ("xb", sb), "kxa": ("xb", sb), "xa/xs": ("xb/xs", sb / sc["a"][1]), "xa**2": ("xb**2", sb * sb)}[spelling]
+        xreg = regs["a"]
+        if site.endswith("-alike"):
+            xreg = ctx.registry([])
+            st = (ctx.real("xa_t", pos=True), ctx.real("xs_t", pos=True))
+            ctx.add_row(xreg, "xa", D.length, st[0], 0.0, prefixable=True)
+            ctx.add_row(xreg, "xs", D.time, st[1], 0.0)
+            xtext, sx = spelling, scale_of(*st, spelling)
+        px = ctx.reals("t", full, pos=additive)
+        x0 = list(elements(px))
+        x = UA(px, unyt.Unit(xtext, registry=xreg))
+        if site.startswith("setitem"):
+            x[:] = seq
+            ctx.require("setitem/target keeps class, shape and unit", And(type(x) is UA and tuple(x.shape) == full and str(x.units) == xtext,
+                                                                                close(x.units.base_value, sx)), got=f"{type(x).__name__}{x.shape} {x.units}")
+            got = np.asarray(x.d).reshape(n, -1)
+            ctx.require("setitem/si(target_i) == si(input_i)",
+                        And(*[close(g * sx, xv * scales[i]) for i in range(n) for g, xv in zip(list(got[i]), xs[i])], True))
+            ctx.require("setitem/inputs untouched", untouched())
+            ctx.observe("assigned", payload(x))
+            return
+        op = {"add-x-seq": lambda: x + seq, "add-seq-x": lambda: np.add(seq, x), "sub-x-seq": lambda: x - seq,
+              "mul-x-seq": lambda: x * seq, "mul-seq-x": lambda: np.multiply(seq, x)}[site.replace("-alike", "")]
+        r = op()
+        ctx.require("binary/is unyt_array of the broadcast shape", isinstance(r, UA) and not isinstance(r, UQ) and tuple(r.shape) == full,
+                    got=f"{type(r).__name__}{r.shape}")
+        want_dims = dim_first * dim_first if site.startswith("mul") else dim_first
+        ctx.require("binary/dimension of the result", bool(r.units.dimensions == want_dims), got=str(r.units.dimensions))
+        su = r.units.base_value
+        got = np.asarray(r.d).reshape(n, -1)
+        xr = np.asarray(x0, dtype=object).reshape(n, -1)
+        ok = []
+        for i in range(n):
+            for j, (g, xv) in enumerate(zip(list(got[i]), xs[i])):
+                a, b = xr[i][j] * sx, xv * scales[i]
+                if site.startswith("add"):
+                    ok.append(close(g * su, a + b, extra=band(a, b)))
+                elif site.startswith("sub"):
+                    ok.append(close(g * su, a - b, extra=band(a, b)))
+                else:
+                    ok.append(close(g * su, a * b))
+        ctx.require("binary/si(result_i) == si(x_i) op si(input_i)", And(*ok, True))
+        ctx.require("binary/operands untouched", And(untouched(), all_exact(payload(x), x0)))
+        ctx.observe("result", payload(r))
+    tag = "" if elem_shape == () else "x" + sid(elem_shape)
+    return Case(f"C16/coerce-ident/{site}/{ident}{tag}", h, bounds="symbolic: values, every unit scale of every registry, the modified scale",
+                weight=5 * n, budget_s=900, max_paths=4000)
+
+
+def coerce_ident_cases(tier):
+    if tier == "quick":
+        combos = list(COERCE_QUICK)
+    else:
+        combos = [(s, i, ()) for s in COERCE_SITES for i in COERCE_IDENT]
+        combos += [(s, i, (2,)) for s in ("ctor", "setitem", "add-x-seq", "mul-x-seq") for i in ("tworeg/ab", "modified/am", "tworeg/aba", "prefixed/ab")]
+        combos += [("ctor", "compound/ab", (2,)), ("ctor", "tworeg/ab", (1, 2))]
+    seen, out = set(), []
+    for c in combos:
+        if c not in seen:
+            seen.add(c)
+            out.append(make_coerce_ident_case(*c))
+    return out
+
+
 # ------------------------------------------------------------------------------------------------ cases
 
 def cases(tier, mods):
@@ -1587,6 +1889,7 @@ def cases(tier, mods):
             out.append(make_ordered_case(shape, cls))
             out.append(make_index_case(shape, cls))
             out.append(make_func_case(shape, cls))
+            out.append(make_handler_case(shape, cls))
             if size_of(shape) >= 1:
                 out.append(make_view_case(shape, cls))
                 out.append(make_copy_case(shape, cls))
@@ -1601,6 +1904,7 @@ def cases(tier, mods):
             out.append(make_coerce_case(n, "equal"))
     out.append(make_coerce_case(2, "list", (2,)))
     out.append(make_coerce_case(2, "prefixed", (2,)))
+    out += coerce_ident_cases(tier)
     if tier != "quick":
         out.append(make_coerce_case(3, "list", (2,)))
         out.append(make_coerce_case(2, "list", (1, 2)))
